@@ -390,6 +390,10 @@ def _lookup_apply(self, eng, st, this, args, n):
     """Call-site summary of Lookup<v>: its proved postcondition over the caller's registry view."""
     owner = eng.cur_contract
     v = 'leaf' if z3.is_true(eng.template_env['NoneIsLeaf']) else 'node'
+    if not hasattr(owner, 'oids'):
+        # caller without a registry view: the current registration of (variant, namespace, type), whatever it is
+        cls = args[0].ref if isinstance(args[0], PyObj) else args[0]
+        return [(st, z3.Function(f'registry_lookup_{v}', Ref, Str, Int, Ref)(cls, args[1], z3.IntVal(st.ghost['epoch'])))]
     maps = {k: st.heap[o] for k, o in owner.oids.items()}
     cls = args[0].ref if isinstance(args[0], PyObj) else args[0]
     return [(st, lookup_value(maps, v, cls, args[1]))]
